@@ -180,7 +180,7 @@ def gen_rfc3339(rng):
             local += 24 * 60
             day -= 1  # June 30 / Dec 31 minus one day stays in the month
         hour, minute, second = local // 60, local % 60, 60
-        tags = [t for t in tags if t != "year0000"] + ["leap_second"]
+        tags = [t for t in tags if t not in ("year0000", "feb29")] + ["leap_second"]
     frac = ""
     froll = rng.random()
     if froll < 0.4:
@@ -229,10 +229,18 @@ def gen_case(rng):
     n_ops = rng.choice([6, 10, 15, 22, 30])
     strings = [gen_string(rng) for _ in range(rng.randint(2, 5))]
     p_builtin = rng.choice([0.1, 0.25, 0.5])
+    el_name = {op["eid"]: op["name"] for op in ops}
+    validated = []  # (eid, value) pairs already validated
     for _ in range(n_ops):
         roll = rng.random()
         if roll < 0.22:
-            ops.append({"op": "register", "name": rng.choice(names), "pred": gen_pred(rng)})
+            name = rng.choice(names)
+            ops.append({"op": "register", "name": name, "pred": gen_pred(rng)})
+            # faults land inside in-flight state: re-validate strings that were
+            # already judged under the previous checker for this name
+            again = [pair for pair in validated if el_name[pair[0]] == name]
+            for eid, value in rng.sample(again, min(len(again), rng.randint(0, 3))):
+                ops.append({"op": "validate", "eid": eid, "value": value})
         elif roll < 0.22 + p_builtin * 0.5:
             if rng.random() < 0.35:
                 text, tag = gen_uuid(rng)
@@ -249,10 +257,14 @@ def gen_case(rng):
             else:
                 value = gen_string(rng)
             ops.append({"op": "validate", "eid": eid, "value": value})
+            if isinstance(value, str):
+                validated.append((eid, value))
         else:
             eid = n_el
             n_el += 1
-            ops.append({"op": "make", "eid": eid, "kind": rng.choice(KINDS), "name": rng.choice(names)})
+            name = rng.choice(names)
+            el_name[eid] = name
+            ops.append({"op": "make", "eid": eid, "kind": rng.choice(KINDS), "name": name})
     return {"prop": PROP, "perm": perm, "ops": ops}
 
 
